@@ -2,7 +2,6 @@ package webrtc
 
 import (
 	"fmt"
-	"os"
 	"runtime"
 	"sort"
 	"strings"
@@ -153,8 +152,8 @@ func (p c19BUPlan) String() string {
 
 			continue
 		}
-		parts = append(parts, fmt.Sprintf("peer%d[pre=%d goroutines=%d max=%d start=%s+%dus pace=%s tail=%d]", k, s.pre, s.goroutines, s.total,
-			c19TrigNames[s.trigger], s.delayUS, c19PaceNames[s.pace], s.tail))
+		parts = append(parts, fmt.Sprintf("peer%d[pre=%d goroutines=%d max=%d start=%s+%dus pace=%s tail=%d pollers=%d]", k, s.pre, s.goroutines, s.total,
+			c19TrigNames[s.trigger], s.delayUS, c19PaceNames[s.pace], s.tail, s.pollers))
 	}
 
 	return fmt.Sprintf("bring-up answererDTLS=%s sctpRTOMax=%dms %s chans=%x", p.answererRole, p.rtoMaxMS, strings.Join(parts, " "), p.chanSeed&0xffffff)
@@ -167,7 +166,7 @@ func c19GenBUPlan(r *kit.Rand, k int) c19BUPlan {
 	}
 	// SCTP retransmission timer cap (SettingEngine.SetSCTPRTOMax): the accepting association queues at most 16 new streams and
 	// drops what arrives beyond that until the sender's timer fires, so a burst of OPENs needs timer rounds to get through
-	p.rtoMaxMS = kit.Pick(r, []int{20, 30, 30, 50, 100})
+	p.rtoMaxMS = kit.Pick(r, []int{50, 50, 100, 100, 200})
 	dense := k%4 != 3 || r.Chance(0.3)
 	for side := 0; side < 2; side++ {
 		s := &p.side[side]
@@ -175,10 +174,11 @@ func c19GenBUPlan(r *kit.Rand, k int) c19BUPlan {
 		s.delayUS = kit.Pick(r, []int{0, 0, 0, 30, 100, 250, 600})
 		s.tail = r.Intn(3)
 		if dense { // many goroutines, started close to the transport's start, creating channels as fast as they can
-			s.goroutines = kit.Pick(r, []int{8, 10, 12, 14})
+			s.goroutines = kit.Pick(r, []int{12, 14, 14, 16})
 			s.trigger = kit.Pick(r, []int{c19TrigDTLS, c19TrigDTLS, c19TrigPC})
-			s.total = kit.Pick(r, []int{300, 500, 800})
-			s.pace = kit.Pick(r, []int{0, 0, 1, 2})
+			s.total = kit.Pick(r, []int{300, 400, 600})
+			s.pace = kit.Pick(r, []int{0, 0, 0, 2})
+			s.delayUS = kit.Pick(r, []int{0, 0, 0, 30, 100})
 
 			continue
 		}
@@ -186,6 +186,7 @@ func c19GenBUPlan(r *kit.Rand, k int) c19BUPlan {
 		s.total = kit.Pick(r, []int{20, 60, 150, 400})
 		s.trigger = r.Intn(5)
 		s.pace = r.Intn(4)
+		s.pollers = kit.Pick(r, []int{0, 0, 0, 1, 2})
 		if s.trigger == c19TrigSignalled || s.trigger == c19TrigICE { // a long way to go: spread the channels out
 			s.pace = kit.Pick(r, []int{1, 2, 3, 3})
 		}
@@ -354,34 +355,6 @@ func c19BringUpCase(run *kit.Run, k int) { //nolint:gocognit,cyclop,maintidx,goc
 	i := c19BUBase + k
 	r := run.CaseRand(i)
 	plan := c19GenBUPlan(r, k)
-	if x := os.Getenv("C19X"); x != "" { // TEMP experiment knob
-		for _, kv := range strings.Split(x, ",") {
-			var key string
-			var val int
-			p := strings.SplitN(kv, "=", 2)
-			key = p[0]
-			fmt.Sscan(p[1], &val)
-			for side := 0; side < 2; side++ {
-				s := &plan.side[side]
-				switch key {
-				case "g":
-					s.goroutines = val
-				case "trig":
-					s.trigger = val
-				case "total":
-					s.total = val
-				case "pace":
-					s.pace = val
-				case "delay":
-					s.delayUS = val
-				case "pre":
-					s.pre = val
-				case "poll":
-					s.pollers = val
-				}
-			}
-		}
-	}
 	desc := plan.String()
 
 	cfg := Configuration{AlwaysNegotiateDataChannels: true}
@@ -399,10 +372,6 @@ func c19BringUpCase(run *kit.Run, k int) { //nolint:gocognit,cyclop,maintidx,goc
 
 		return
 	}
-	tT := time.Now()
-	var tmarks []string
-	mark := func(w string) { tmarks = append(tmarks, fmt.Sprintf("%s=%dms", w, time.Since(tT).Milliseconds())) }
-	defer func() { mark("closed"); fmt.Println("TIMING", k, tmarks) }()
 	leak := false // set when the pair is in a state the library was never meant to be in: closing it could take the process down
 	defer func() {
 		if !leak {
@@ -522,13 +491,6 @@ func c19BringUpCase(run *kit.Run, k int) { //nolint:gocognit,cyclop,maintidx,goc
 					time.Sleep(200 * time.Microsecond)
 				}
 			}
-			tTrig := time.Now()
-			go func() {
-				for pcs[side].SCTP().State() != SCTPTransportStateConnected && !giveUp.Load() {
-					runtime.Gosched()
-				}
-				fmt.Println("DTIME", k, side, c19TrigNames[ps.trigger], time.Since(tTrig).Microseconds())
-			}()
 			if ps.delayUS > 0 {
 				for t0 := time.Now(); time.Since(t0) < time.Duration(ps.delayUS)*time.Microsecond; {
 					runtime.Gosched()
@@ -547,6 +509,7 @@ func c19BringUpCase(run *kit.Run, k int) { //nolint:gocognit,cyclop,maintidx,goc
 					} else {
 						_ = tr.BufferedAmount()
 					}
+					runtime.Gosched()
 				}
 			}(side, q)
 		}
@@ -587,16 +550,23 @@ func c19BringUpCase(run *kit.Run, k int) { //nolint:gocognit,cyclop,maintidx,goc
 		return
 	}
 	signalled.Store(true)
+	sctpGone := false // the SCTP handshake gave up (INIT retransmissions are bounded by 8 x the RTO cap): nothing to judge
 	if !rigWaitConnected(30*time.Second, pcs[0], pcs[1]) ||
 		!kit.Eventually(30*time.Second, func() bool {
-			return pcs[0].SCTP().State() == SCTPTransportStateConnected && pcs[1].SCTP().State() == SCTPTransportStateConnected
-		}) {
+			a, b := pcs[0].SCTP().State(), pcs[1].SCTP().State()
+			sctpGone = a == SCTPTransportStateClosed || b == SCTPTransportStateClosed
+
+			return sctpGone || (a == SCTPTransportStateConnected && b == SCTPTransportStateConnected)
+		}) || sctpGone {
 		stopCreators()
-		run.Inconclusive("bringup-connect-watchdog")
+		if sctpGone {
+			run.Inconclusive("bringup-sctp-handshake-gave-up")
+		} else {
+			run.Inconclusive("bringup-connect-watchdog")
+		}
 
 		return
 	}
-	mark("connected")
 	creatorsDone := make(chan struct{})
 	go func() { creators.Wait(); pollStop.Store(true); pollers.Wait(); close(creatorsDone) }()
 	select {
@@ -607,7 +577,6 @@ func c19BringUpCase(run *kit.Run, k int) { //nolint:gocognit,cyclop,maintidx,goc
 
 		return
 	}
-	mark("creators")
 	// one more channel per peer, created when everything above has been created: when it is open on both peers, every
 	// DATA_CHANNEL_OPEN sent before it has been on the wire for a while
 	for side := 0; side < 2; side++ {
@@ -665,7 +634,6 @@ func c19BringUpCase(run *kit.Run, k int) { //nolint:gocognit,cyclop,maintidx,goc
 		run.Seen("bringup_open_watchdog_stuck_at", stuck)
 		run.Inconclusive("bringup-channel-open-watchdog")
 	}
-	mark("allopen")
 	time.Sleep(20 * time.Millisecond) // settle: surplus announcements show up
 
 	// ---- announcement + parameter oracle
@@ -889,7 +857,6 @@ func c19BringUpCase(run *kit.Run, k int) { //nolint:gocognit,cyclop,maintidx,goc
 		}
 	}
 
-	mark("traffic")
 	// ---- coverage
 	spanned := 0
 	for side := 0; side < 2; side++ {
@@ -905,6 +872,9 @@ func c19BringUpCase(run *kit.Run, k int) { //nolint:gocognit,cyclop,maintidx,goc
 	}
 	run.Count("bringup_peers_whose_creation_loop_spanned_the_sctp_start", spanned)
 	run.Count("bringup_pairs", 1)
+	if leak {
+		run.Count("bringup_pairs_with_a_channel_announced_more_than_once", 1)
+	}
 	run.Case(desc, spanned > 0 && delivered > 0 && stuck == "")
 	if k < 3 {
 		run.Sample(map[string]any{"case": firstN(desc, 500), "channels": fmt.Sprintf("peer0 before/while/after sctp connected = %v, peer1 = %v; reliable ordered channels with traffic: %d; messages delivered: %d",
